@@ -451,7 +451,11 @@ def run_tools(ctx, fdata, enc, blocked, how):
         return ctx.tool_mideu.cli_run(func=ctx.tool_mideu.extract, input=path, csvoutputfile=out,
                                       sourceformat='ascii' if enc == 'latin_1' else 'ebcdic', no1014blocking=not blocked,
                                       loglevel=logging.WARNING)
-    for name, fn in (('mci_ipm_to_csv', csv_tool), ('mideu extract', mideu_tool)):
+    def convert_tool():
+        return ctx.tool_mideu.cli_run(func=ctx.tool_mideu.convert, input=path,
+                                      sourceformat='ascii' if enc == 'latin_1' else 'ebcdic', no1014blocking=not blocked,
+                                      loglevel=logging.WARNING)
+    for name, fn in (('mci_ipm_to_csv', csv_tool), ('mideu extract', mideu_tool), ('mideu convert', convert_tool)):
         kind, val = ctx.call(fn, budget=sentinel.budget_for(len(fdata)) * 3 + 200000)
         ctx.count('tool runs: ' + name)
         if kind == 'ok':
